@@ -720,128 +720,170 @@ func ruleC09(c *Ctx) {
 		}
 	}
 	c.census("H-PRIMARY", "return sites of the tree/primary-path function", nRet, 2)
-	// H-PRIMARY (b): handlers pass tree and primary path from the same call
-	nUse := 0
+	// H-PRIMARY (b) by data flow: the journal-map builder (role: returns a map of journals by path and stores a
+	// tree's Primary in it) keys the primary by a path that comes - through parameters, struct fields and helper
+	// results, up to the handlers - from the same call of the pairing function as the tree itself.
+	ci := buildConc(c)
+	isTreePtr := func(t types.Type) bool {
+		pt, ok := t.Underlying().(*types.Pointer)
+		return ok && typeHasSuffix(pt.Elem(), "include.ResolvedJournal")
+	}
+	pairTuples := func(sl map[ssa.Value]bool, idx int) map[ssa.Value]bool {
+		out := map[ssa.Value]bool{}
+		for v := range sl {
+			if ex, ok := v.(*ssa.Extract); ok && ex.Index == idx {
+				if tc, ok := ex.Tuple.(*ssa.Call); ok && tc.Common().StaticCallee() == pairFn {
+					out[ex.Tuple] = true
+				}
+			}
+		}
+		return out
+	}
+	var builder *ssa.Function
+	nPrimaryStores := 0
+	allTuples := map[ssa.Value]bool{}
 	for _, f := range c.P.ModuleFuncs() {
-		if f.Pkg != spk {
+		top := f
+		for top.Parent() != nil {
+			top = top.Parent()
+		}
+		if top.Pkg != spk || f.Signature.Results().Len() != 1 {
 			continue
 		}
-		for _, call := range findCalls(f, func(cal *ssa.Function) bool {
-			if cal.Pkg != spk {
+		if mt, ok := f.Signature.Results().At(0).Type().Underlying().(*types.Map); !ok || !typeHasSuffix(mt.Elem(), "ast.Journal") || types.TypeString(mt.Key(), nil) != "string" {
+			continue
+		}
+		for _, b := range f.Blocks {
+			for _, ins := range b.Instrs {
+				mu, ok := ins.(*ssa.MapUpdate)
+				if !ok {
+					continue
+				}
+				// the stored value is <tree>.Primary
+				ld, ok := mu.Value.(*ssa.UnOp)
+				if !ok || ld.Op != token.MUL {
+					continue
+				}
+				fa, ok := ld.X.(*ssa.FieldAddr)
+				if !ok || !isTreePtr(fa.X.Type()) || fieldVarOfAddr(fa).Name() != "Primary" {
+					continue
+				}
+				builder = f
+				nPrimaryStores++
+				keyT := pairTuples(sliceUp(ci, mu.Key, f), 1)
+				treeT := pairTuples(sliceUp(ci, fa.X, f), 0)
+				same := len(keyT) > 0 && len(keyT) == len(treeT)
+				for t := range keyT {
+					allTuples[t] = true
+					if !treeT[t] {
+						same = false
+					}
+				}
+				c.check(same, "H-PRIMARY", funcName(f), "primary stored under the path that came with the tree", mu.Pos(),
+					fmt.Sprintf("key and tree both come from the same %d call(s) of %s", len(keyT), pairFn.Name()),
+					fmt.Sprintf("the tree's Primary journal is stored under a path that does not come from the same lookup as the tree (lookups behind the key: %d, behind the tree: %d): the primary can be labelled with the wrong file", len(keyT), len(treeT)))
+			}
+		}
+	}
+	c.census("H-PRIMARY", "stores of a tree's primary journal in the journal map", nPrimaryStores, 1)
+	c.census("H-PRIMARY", "lookups of a tree with its primary path that reach the journal map", len(allTuples), 1)
+	// C09-TREE: whenever a tree is given, the map that is searched is built from the tree: every return of a
+	// map that does not contain the tree's files is control dependent on the tree being nil
+	if F := builder; F != nil {
+		// the tree as seen inside the builder: a parameter, or a field of a parameter
+		isTree := func(v ssa.Value) bool {
+			if v == nil || !isTreePtr(v.Type()) {
 				return false
 			}
-			// functions with a (*ResolvedJournal, string primaryPath, ...) parameter prefix
-			for i, p := range cal.Params {
-				if typeHasSuffix(p.Type(), "include.ResolvedJournal") && i+1 < len(cal.Params) && types.TypeString(cal.Params[i+1].Type(), nil) == "string" {
+			switch x := v.(type) {
+			case *ssa.Parameter:
+				return true
+			case *ssa.UnOp:
+				if x.Op == token.MUL {
+					_, isFA := x.X.(*ssa.FieldAddr)
+					return isFA
+				}
+			case *ssa.Field:
+				return true
+			}
+			return false
+		}
+		sliceHasTree := func(v ssa.Value) bool {
+			for w := range backSlice(v) {
+				if isTree(w) {
 					return true
 				}
 			}
 			return false
-		}) {
-			cal := call.Common().StaticCallee()
-			if f.Signature.Recv() == nil && f != pairFn {
-				// inner helper forwarding its own parameters: checked at the handler level
-				continue
-			}
-			for i, p := range cal.Params {
-				if typeHasSuffix(p.Type(), "include.ResolvedJournal") && i+1 < len(cal.Params) {
-					nUse++
-					t, pp := call.Common().Args[i], call.Common().Args[i+1]
-					same := false
-					if e0, ok := t.(*ssa.Extract); ok {
-						if e1, ok := pp.(*ssa.Extract); ok && e0.Tuple == e1.Tuple && e0.Index == 0 && e1.Index == 1 {
-							if tc, ok := e0.Tuple.(*ssa.Call); ok && tc.Common().StaticCallee() == pairFn {
-								same = true
-							}
-						}
+		}
+		usesTree := map[*ssa.BasicBlock]bool{}
+		for _, b := range F.Blocks {
+			for _, ins := range b.Instrs {
+				for _, op := range ins.Operands(nil) {
+					if op != nil && *op != nil && isTree(*op) {
+						usesTree[b] = true
 					}
-					c.check(same, "H-PRIMARY", funcName(f), "tree and primary path come from one lookup: "+cal.Name(), call.Pos(),
-						"both values are results of the same "+pairFn.Name()+" call", "the resolved tree and the path used to label its primary journal do not come from the same lookup: the primary can be labelled with the wrong file")
 				}
 			}
 		}
-	}
-	c.census("H-PRIMARY", "handler call sites passing a tree with its primary path", nUse, 3)
-	// inside the journal-map builder the primary is stored under the primary path parameter
-	if fd := c.P.FindDecl("internal/server", func(fd *ast.FuncDecl, info *types.Info) bool {
-		return fd.Recv == nil && hasSuffixAny(paramTypes(fd, info), "include.ResolvedJournal") && hasSuffixAny(resultTypes(fd, info), "ast.Journal") && strings.HasPrefix(strings.Join(resultTypes(fd, info), ""), "map[string]")
-	}); fd != nil {
-		info := c.P.InfoFor(fd)
-		okKey := false
-		ast.Inspect(fd.Body, func(x ast.Node) bool {
-			as, ok := x.(*ast.AssignStmt)
-			if !ok || len(as.Lhs) != 1 || len(as.Rhs) != 1 {
+		afterUse := func(b *ssa.BasicBlock) bool {
+			if usesTree[b] {
 				return true
 			}
-			if se, ok := ast.Unparen(as.Rhs[0]).(*ast.SelectorExpr); ok && se.Sel.Name == "Primary" {
-				if ix, ok := ast.Unparen(as.Lhs[0]).(*ast.IndexExpr); ok {
-					// key must be the parameter that directly follows the tree parameter
-					var names []string
-					for _, fl := range fd.Type.Params.List {
-						for _, n := range fl.Names {
-							names = append(names, n.Name)
-						}
-					}
-					if len(names) >= 2 && identOf(ix.Index).Name == names[1] {
-						okKey = true
-					}
-					_ = info
+			seen := map[*ssa.BasicBlock]bool{}
+			w := []*ssa.BasicBlock{F.Blocks[0]}
+			for len(w) > 0 {
+				x := w[len(w)-1]
+				w = w[:len(w)-1]
+				if seen[x] || usesTree[x] {
+					continue
 				}
+				seen[x] = true
+				if x == b {
+					return false
+				}
+				w = append(w, x.Succs...)
 			}
 			return true
-		})
-		c.check(okKey, "H-PRIMARY", c.P.declName(fd), "primary stored under the primary path", fd.Pos(),
-			"resolved.Primary is keyed by the primary-path parameter", "resolved.Primary is not keyed by the path that accompanies the tree")
-		// C09-TREE: whenever a tree is given, the map that is searched is built from the tree: every return of a
-		// map that does not contain the tree's files is control dependent on the tree being nil
-		if F := c.P.ssaOf(fd); F != nil {
-			var treeParam *ssa.Parameter
-			for _, p := range F.Params {
-				if typeHasSuffix(p.Type(), "include.ResolvedJournal") {
-					treeParam = p
-				}
-			}
-			nR := 0
-			for _, b := range F.Blocks {
-				for _, ins := range b.Instrs {
-					r, ok := ins.(*ssa.Return)
-					if !ok || len(r.Results) != 1 || treeParam == nil {
-						continue
-					}
-					nR++
-					// does the returned map receive the tree's files on the way here?
-					whenNil := false
-					for _, cc := range controlCondsPol(b) {
-						if bo, ok := cc.Cond.(*ssa.BinOp); ok {
-							nilCmp := (bo.X == ssa.Value(treeParam) || bo.Y == ssa.Value(treeParam))
-							if nilCmp && ((bo.Op == token.EQL && cc.Taken) || (bo.Op == token.NEQ && !cc.Taken)) {
-								whenNil = true
-							}
-						}
-					}
-					fills := false
-					for _, b2 := range F.Blocks {
-						for _, i2 := range b2.Instrs {
-							mu, ok := i2.(*ssa.MapUpdate)
-							if !ok || !backSlice(r.Results[0])[mu.Map] && mu.Map != r.Results[0] {
-								continue
-							}
-							if backSlice(mu.Value)[ssa.Value(treeParam)] && (b2.Dominates(b) || reachesBlock(b2, b)) {
-								// every path to this return passes a point from which the fill loop is entered?
-								fills = true
-							}
-						}
-					}
-					// a return that is reachable without the tree having been consulted at all
-					early := !whenNil && !blockAfterUse(F, b, treeParam)
-					c.check(whenNil || (fills && !early), "C09-TREE", c.P.declName(fd), fmt.Sprintf("return #%d covers the whole tree", nR), r.Pos(),
-						"the journals of the given tree are in the returned map (or no tree was given)", "the set of journals that is searched can be returned without the files of the given include tree (a short cut that looks at the requesting document only): references, rename and definition then depend on the file the request is made from")
-				}
-			}
-			c.census("C09-TREE", "return sites of the journal-map builder", nR, 1)
 		}
+		nR := 0
+		for _, b := range F.Blocks {
+			for _, ins := range b.Instrs {
+				r, ok := ins.(*ssa.Return)
+				if !ok || len(r.Results) != 1 {
+					continue
+				}
+				nR++
+				whenNil := false
+				for _, cc := range controlCondsPol(b) {
+					if bo, ok := cc.Cond.(*ssa.BinOp); ok {
+						nilCmp := isTree(bo.X) || isTree(bo.Y)
+						if nilCmp && ((bo.Op == token.EQL && cc.Taken) || (bo.Op == token.NEQ && !cc.Taken)) {
+							whenNil = true
+						}
+					}
+				}
+				fills := false
+				rs := backSlice(unspillResult(r.Results[0], b))
+				for _, b2 := range F.Blocks {
+					for _, i2 := range b2.Instrs {
+						mu, ok := i2.(*ssa.MapUpdate)
+						if !ok || !rs[mu.Map] && mu.Map != r.Results[0] {
+							continue
+						}
+						if sliceHasTree(mu.Value) && (b2.Dominates(b) || reachesBlock(b2, b)) {
+							fills = true
+						}
+					}
+				}
+				early := !whenNil && !afterUse(b)
+				c.check(whenNil || (fills && !early), "C09-TREE", funcName(F), fmt.Sprintf("return #%d covers the whole tree", nR), r.Pos(),
+					"the journals of the given tree are in the returned map (or no tree was given)", "the set of journals that is searched can be returned without the files of the given include tree (a short cut that looks at the requesting document only): references, rename and definition then depend on the file the request is made from")
+			}
+		}
+		c.census("C09-TREE", "return sites of the journal-map builder", nR, 1)
 	} else {
-		c.undecided("H-PRIMARY", "server.allJournalsWithPaths", "anchor", token.NoPos, "function not found")
+		c.undecided("H-PRIMARY", "server", "journal-map builder", token.NoPos, "no function of the server returns a map of journals by path that holds a tree's primary journal")
 	}
 	ruleT11(c)
 }
@@ -1304,22 +1346,74 @@ func undeclaredCommodityCheck(p *Prog) *ast.FuncDecl {
 	})
 }
 
-// commodityReferenceCollector: the reference collector (returns []protocol.Location) that selects .Commodity.
+// commodityReferenceCollector: the reference collector (returns []protocol.Location) that selects .Commodity -
+// itself or in a helper it calls.
 func commodityReferenceCollector(p *Prog) *ast.FuncDecl {
-	return p.FindDecl("internal/server", func(fd *ast.FuncDecl, info *types.Info) bool {
-		rt := resultTypes(fd, info)
-		if fd.Recv != nil || len(rt) != 1 || rt[0] != "[]go.lsp.dev/protocol.Location" {
+	var selects func(fd *ast.FuncDecl, depth int, seen map[*ast.FuncDecl]bool) bool
+	selects = func(fd *ast.FuncDecl, depth int, seen map[*ast.FuncDecl]bool) bool {
+		if fd == nil || fd.Body == nil || seen[fd] || depth > 3 {
 			return false
 		}
+		seen[fd] = true
+		info := p.InfoFor(fd)
 		sel := false
 		ast.Inspect(fd.Body, func(x ast.Node) bool {
-			if se, ok := x.(*ast.SelectorExpr); ok && se.Sel.Name == "Commodity" {
-				sel = true
+			switch n := x.(type) {
+			case *ast.SelectorExpr:
+				if n.Sel.Name == "Commodity" {
+					if t := info.TypeOf(n.X); t != nil && (typeHasSuffix(t, "ast.Amount") || typeHasSuffix(t, "ast.Cost")) {
+						sel = true
+					}
+				}
+			case *ast.CallExpr:
+				if o, ok := calleeOf(info, n).(*types.Func); ok {
+					if d := p.declOf[o]; d != nil && p.pkgOf[d] == p.pkgOf[fd] && selects(d, depth+1, seen) {
+						sel = true
+					}
+				}
 			}
 			return true
 		})
 		return sel
-	})
+	}
+	var cands []*ast.FuncDecl
+	for _, fd := range p.AllFuncDecls() {
+		if p.pkgOf[fd] != p.ByRel["internal/server"] || fd.Recv != nil {
+			continue
+		}
+		info := p.InfoFor(fd)
+		rt := resultTypes(fd, info)
+		if len(rt) != 1 || rt[0] != "[]go.lsp.dev/protocol.Location" {
+			continue
+		}
+		if selects(fd, 0, map[*ast.FuncDecl]bool{}) {
+			cands = append(cands, fd)
+		}
+	}
+	// a dispatcher that merely hands over to the collector is not the collector: take the candidate that calls
+	// no other candidate
+	isCand := map[*ast.FuncDecl]bool{}
+	for _, cnd := range cands {
+		isCand[cnd] = true
+	}
+	for _, cnd := range cands {
+		info := p.InfoFor(cnd)
+		callsCand := false
+		ast.Inspect(cnd.Body, func(x ast.Node) bool {
+			if call, ok := x.(*ast.CallExpr); ok {
+				if o, ok := calleeOf(info, call).(*types.Func); ok {
+					if d := p.declOf[o]; d != nil && d != cnd && isCand[d] {
+						callsCand = true
+					}
+				}
+			}
+			return true
+		})
+		if !callsCand {
+			return cnd
+		}
+	}
+	return nil
 }
 
 // appendsToParam: the function contains `append(p, ...)` for one of its slice parameters p.
